@@ -42,3 +42,38 @@ class Violations:
     def result(self, bound, **extra):
         return {"summary": {"cases": self.cases, "nontrivial": self.nontrivial, "bound": bound, "samples": self.samples, **extra},
                 "violations": self.items}
+
+
+def pair_calculator():
+    """stateless analytic pair potential (soft repulsion + weak attraction), recomputed from scratch on
+    every call: no per-atom internal state, results cached by ASE's generic mechanism only"""
+    import numpy as np
+    from ase.calculators.calculator import Calculator, all_changes
+
+    class PairPot(Calculator):
+        implemented_properties = ["energy", "forces"]
+        nevals = 0
+
+        def calculate(self, atoms=None, properties=("energy",), system_changes=all_changes):
+            Calculator.calculate(self, atoms, properties, system_changes)
+            PairPot.nevals += 1
+            self.evals = getattr(self, "evals", 0) + 1
+            x = atoms.positions
+            n = len(x)
+            e, f = 0.0, np.zeros((n, 3))
+            cell = atoms.cell.array
+            inv = np.linalg.inv(cell) if atoms.pbc.any() and abs(np.linalg.det(cell)) > 1e-9 else None
+            for i in range(n):
+                for j in range(i + 1, n):
+                    d = x[i] - x[j]
+                    if inv is not None:
+                        s = d @ inv
+                        s -= np.round(s)
+                        d = s @ cell
+                    r2 = d @ d + 0.3
+                    e += 1.0 / r2 ** 2 - 0.5 / r2
+                    g = (-4.0 / r2 ** 3 + 1.0 / r2 ** 2)
+                    f[i] -= g * d
+                    f[j] += g * d
+            self.results = {"energy": e, "forces": f}
+    return PairPot()
